@@ -1,0 +1,15 @@
+//go:build verif
+
+// Contract of the native rate limiter (C20): the operator is exactly the composition
+//   GroupBy(key) -> MergeMap( WindowWhen(Interval(interval)) -> Map(Take(count)) -> MergeAll )
+// of core operators, so that "at most count items per key per window, order kept, no duplicates" follows from the
+// contracts of those operators (Take: at most count values per window observable; GroupBy / WindowWhen: each value
+// goes to exactly one group / one window, in order). Comments only.
+
+package roratelimit
+
+//@ func NewRateLimiter$1
+//@   props C20
+//@   track call.*
+//@   ensures [is-the-documented-composition|C20] trace(call.GroupBy(keyGetter), call.Interval(interval), call.WindowWhen(res(call.Interval)), call.Take(count), call.Map(res(call.Take)), call.MergeAll(), call.PipeOp3(res(call.WindowWhen), res(call.Map), res(call.MergeAll)), call.MergeMap(res(call.PipeOp3)), call.Pipe2(source, res(call.GroupBy), res(call.MergeMap)))
+//@   ensures [returns-the-composition|C20] result == res(call.Pipe2)
